@@ -199,9 +199,19 @@ func (t *tr2) assign(lhs ast.Expr, val string, bs *[]bind) {
 		t.assign(x.X, tmp, bs)
 	case *ast.SelectorExpr:
 		sel := t.info.Selections[x]
-		nn, _, ok := namedStruct(t.info.TypeOf(x.X))
+		xt := t.info.TypeOf(x.X)
+		nn, _, ok := namedStruct(xt)
+		viaPtr := false
+		if !ok {
+			// p.f = v through a pointer: only when p is a local created by &T{...} and never copied
+			if pn, isP := ptrStruct(xt); isP {
+				if id, isId := x.X.(*ast.Ident); isId && t.fresh[t.info.Uses[id]] {
+					nn, ok, viaPtr = pn, true, true
+				}
+			}
+		}
 		if sel == nil || sel.Kind() != types.FieldVal || len(sel.Index()) != 1 || !ok || !t.typeOK(nn) {
-			t.fail(x, "field assignment outside the subset (writes through pointers are rejected)")
+			t.fail(x, "field assignment outside the subset (writes through pointers are rejected unless the pointer is a local created by &T{...} and never copied)")
 			return
 		}
 		r := t.record(nn)
@@ -211,6 +221,12 @@ func (t *tr2) assign(lhs ast.Expr, val string, bs *[]bind) {
 			return
 		}
 		base := t.expr(x.X, bs)
+		if viaPtr {
+			tmp := t.freshTmp()
+			*bs = append(*bs, bind{pat: tmp, rhs: "(go_deref " + base + ")"})
+			t.assign(x.X, "(Some ("+t.q(r.mod, "set_"+f.coq)+" "+tmp+" "+val+"))", bs)
+			return
+		}
 		t.assign(x.X, "("+t.q(r.mod, "set_"+f.coq)+" "+base+" "+val+")", bs)
 	default:
 		t.fail(lhs, "unsupported assignment target %T", lhs)
@@ -230,7 +246,9 @@ func (t *tr2) checkWritable(e ast.Expr) {
 				continue
 			case *ast.SelectorExpr:
 				if _, isP := t.info.TypeOf(x.X).Underlying().(*types.Pointer); isP {
-					t.fail(e, "write through a pointer unsupported")
+					if id, isId := x.X.(*ast.Ident); !isId || !t.fresh[t.info.Uses[id]] {
+						t.fail(e, "write through a pointer unsupported (unless it is a local created by &T{...} and never copied)")
+					}
 				}
 				cur = x.X
 				continue
